@@ -179,7 +179,8 @@ pub fn o_transparent(sc: &Scenario, reference: &RunResult, r: &RunResult) -> Vec
             Outcome::Violation(v) => {
                 violated = true;
                 let k = kind_of(v);
-                if !can.iter().any(|c| c == k) {
+                // (a request too large to represent is refused under every configured size limit, also the reference's)
+                if !can.iter().any(|c| c == k) && a != b {
                     out.push((
                         "transparent".to_string(),
                         format!("impossible violation {k}"),
@@ -285,7 +286,8 @@ pub fn o_transparent_ops(sc: &Scenario, reference: &RunResult, r: &RunResult) ->
         match b {
             Outcome::Violation(v) => {
                 let k = kind_of(v);
-                if !can.iter().any(|c| c == k) {
+                // (a request too large to represent is refused under every configured size limit, also the reference's)
+                if !can.iter().any(|c| c == k) && a != b {
                     out.push((
                         "transparent".to_string(),
                         format!("impossible violation {k}"),
